@@ -126,15 +126,16 @@ def honest_suite(seed, tier):
     groups = []
     K = 3 if quick else 8
 
-    def add_group(name, circ, pe, po):
+    def add_group(name, circ, pe, po, mixed=False):
         n = len(circ["input_regs"])
         g = []
-        for k in range(K):
-            tmp = [rng.random() < 0.5 for _ in range(n)]
-            if k == 0:
-                tmp = [False] * n
-            if k == 1:
-                tmp = [True] * n
+        # per-party storage choice: all in memory, all on file, both genuinely
+        # mixed patterns, then random ones
+        pats = [[False] * n, [True] * n, [i % 2 == 0 for i in range(n)], [i % 2 == 1 for i in range(n)]]
+        for k in range(max(K, 4) if mixed else K):
+            tmp = pats[k] if k < 4 else [rng.random() < 0.5 for _ in range(n)]
+            if not mixed and k == 2:
+                tmp = pats[2 + rng.randrange(2)]
             g.append(job(f"{name}.{k}", circ, rand_inputs(rng, circ), pe, po, tmp=tmp,
                          cap=rng.choice([1, 1, 2, 0]), pol=policy(rng, n),
                          tag={"grp": name}))
@@ -166,7 +167,7 @@ def honest_suite(seed, tier):
         n = 2 if a > 1001 or quick else rng.choice([2, 3])
         pe = rng.randrange(n)
         po = rng.choice(list(nonempty_subsets(n)))
-        add_group(f"ands{a}.n{n}", and_chain(n, a), pe, po)
+        add_group(f"ands{a}.n{n}", and_chain(n, a), pe, po, mixed=(a >= 1000))
     if not quick:
-        add_group("ands1001.n3", and_chain(3, 1001), 2, [0, 1])
+        add_group("ands1001.n3", and_chain(3, 1001), 2, [0, 1], mixed=True)
     return groups
